@@ -15,6 +15,7 @@ import (
 	"crypto/tls"
 	"errors"
 	"fmt"
+	pkgErrors "github.com/plgd-dev/go-coap/v3/pkg/errors"
 	"math/rand"
 	"net"
 	"strings"
@@ -401,6 +402,7 @@ func discovery(rec *vr.Rec, rounds int, seed int64) {
 				m2 := pool.NewMessage(ctx2)
 				_ = m2.SetupGet("/disc", req.Token)
 				m2.SetType(message.NonConfirmable)
+				m2.SetMessageID(int32(0x7000 + round))
 				derr := srv.DiscoveryRequest(m2, rs[0].addr, func(cc *udpclient.Conn, resp *pool.Message) {
 					b, _ := resp.ReadBody()
 					gmu.Lock()
@@ -409,8 +411,10 @@ func discovery(rec *vr.Rec, rounds int, seed int64) {
 				})
 				if derr == nil {
 					rec.Count("discovery_second_request_with_same_token_accepted", 1)
-				} else {
+				} else if errors.Is(derr, pkgErrors.ErrKeyAlreadyExists) {
 					rec.Count("discovery_second_request_with_same_token_refused", 1)
+				} else {
+					rec.Count("discovery_second_request_failed_otherwise", 1)
 				}
 			}
 			for i := 0; i < nResp; i++ {
